@@ -32,10 +32,10 @@ ASSUMPTIONS = ["Rust semantics of Vec/usize as modelled (checked indexing, debug
                "f64::powf(|x|, 2.0) inside norm_2 is modelled as |x|*|x| (libm's pow is not specified to be correctly rounded; model and implementation agreed bit for bit on every compared run, and a libm for which they differ breaks the tie, not a theorem)",
                "the sampled cases are where model and code were compared; the theorems are about the model"]
 UNPROVED = ["norm_p over R: non-negativity, homogeneity and norm_p = norm_1 / norm_2 at p = 1 / 2 are proved (pow on non-negative arguments as the real power function); "
-            "Minkowski (triangle inequality) and inf <= p <= 1 for general p are searched only",
+            "Minkowski (triangle inequality) and inf <= p <= 1 for general p are searched only for vectors (for MATRICES norm_p_triangle of Props/C03.v proves Minkowski for p >= 1)",
             "round two: dot_backward_error, sum_slice_backward_error, norm_1_relative_error (gamma_n), norm_2_relative_error (gamma_{n+1}) in the standard model, dot/sum/norm_1 also at binary64 via Flocq; the norm LAWS 'up to rounding' over f64 remain searched (1e-12 slack on data of moderate magnitude; proved over R only) and FAIL for entries whose square overflows/underflows (recorded finding f64-square-range)",
             "powspace / norm_p over f64 depend on libm pow: tied by tolerance (table of the calls) and searched; their theorems are over R with pow as the real power function",
-            "complex / rational vectors (package cnorm, coq/Proofs/VectorCx2.v, VectorCx2Q.v; pinned block coq/Props/pending/C15_cnorm.v.txt): for Vector<Complex<f64>>::norm_inf "
+            "complex / rational vectors (package cnorm, coq/Proofs/VectorCx2.v, VectorCx2Q.v; pinned at the end of coq/Props/C15.v): for Vector<Complex<f64>>::norm_inf "
             "(vec_cmplx.rs) and the generic norm_1 (through Signed::abs = (|z|, 0)) the laws (maximum of the moduli, non-negativity, definiteness, homogeneity, triangle inequality, "
             "norm_inf <= norm_1 <= n norm_inf, exact panic condition) and Cauchy-Schwarz for the bilinear dot are proved over C = R x R and (norm_1) over Qc, and searched on "
             "Complex<f64> (1e-12 slack, entries of moderate magnitude) and Rat (exactly); over IEEE binary64 (Flocq) both complex norms are exact on Gaussian integers of integer modulus "
@@ -580,8 +580,8 @@ def finding_key(case, desc, items):
     import re as _re
     if kind == "cnormlaws" and isinstance(desc, str):
         # package cnorm: the complex twin of the same cause (Complex::abs = sqrt(re^2 + im^2), unscaled; recorded for C01 as
-        # cplx-sqmod-range).  The default generators do NOT draw such entries and KNOWN_FINDINGS.txt has no C15 line with this key:
-        # until the coordinator adds one, a hit is reported as a VIOLATION like any other.
+        # cplx-sqmod-range; KNOWN_FINDINGS.txt has the C15 line with this key, witnesses corpus/C15/kf_cplx_scale_*.json).  The default generators do NOT draw such entries:
+        # the key is decided from the INPUT (an entry whose squared modulus leaves the normal range), never from the failure.
         t = _re.match(r"\[(cnorm_1|cnorm_inf)#(\d)\]", desc)
         if t:
             vec = cnormlaws_vectors(m)[int(t.group(2))]
